@@ -167,7 +167,7 @@ class ParseFiltersUnit(Unit):
         env.v.update(args=[], ipc=ipc, filters=list(filters))
         pre = [dict(c.f['kv']) for _, c, _ in filters]
         ex.replay_info = dict(fshape=[list(f) if not isinstance(f[2], tuple) else [f[0], f[1], list(f[2]), f[3]] for f in fshape], filters=[{k: (text(v) if R.is_rope(v) or isinstance(v, str) else v) for k, v in p.items()} | {'class': n} for p, (_, _, n) in zip(pre, filters)], ipc=ipc)
-        ex.model_vars = {**{f'port{i}': inf['port'] for i, inf in enumerate(info) if inf['port'] is not None}, **{f'portb{i}': inf['port_b'] for i, inf in enumerate(info) if inf.get('port_b') is not None}}
+        ex.model_vars = {**{f'id{i}': inf['id_atom'].z for i, inf in enumerate(info) if inf['id_atom'] is not None}, **{f'port{i}': inf['port'] for i, inf in enumerate(info) if inf['port'] is not None}, **{f'portb{i}': inf['port_b'] for i, inf in enumerate(info) if inf.get('port_b') is not None}}
         try:
             ex.block(body, env)
             out = None
@@ -263,7 +263,9 @@ def replay_shape(failure):
     ids = []
     for i, (role, idk, srck, outk) in enumerate(fshape):
         same = [k for k, f in enumerate(fshape) if names[f[0]] == names[role] and f[1] != 'given']
-        ids.append(f'myid{i}' if idk == 'given' else (names[role] if len(same) == 1 else f'{names[role]}{same.index(i) + 1}'))
+        mid = m.get(f'id{i}')       # an id the solver chose (e.g. one that spells an automatically generated id) if it is a plain word, else a fresh one
+        given = mid if isinstance(mid, str) and mid.isidentifier() else f'myid{i}'
+        ids.append(given if idk == 'given' else (names[role] if len(same) == 1 else f'{names[role]}{same.index(i) + 1}'))
     args = []
     suffix = {'none': '', 'eph': '?', 'topic': ';mytopic', 'opt': '!myopt', 'ephtopic': '?;mytopic'}
     for i, (role, idk, srck, outk) in enumerate(fshape):
